@@ -16,6 +16,11 @@ lines contain `<glob> <names..>`, `<pos_arg task> <values..>`, `<task> -f -v VAL
 option tokens, unknown names after globs (A1 also observes CmdParseError = [4]).
 The string functions are oracles: the harness evaluates '*' in s, fnmatch.fnmatch, split(':',1)[0], re.match,
 the '_regex_target_..' format and startswith on every string of the case and passes the tables to Coq.
+Scripted cases (every seed, both tiers): a `basename:sub` name of a delayed creator together with an element only the
+target regexes resolve (target_regex and --auto-delayed-regex; before / after / between; two creators; unknown name), the
+shape of the defect repaired by 01f48fb.  Oracle on every A1 case (no model involved): a task that process() added to
+TaskControl.tasks is a name of the command line (sub-task placeholder) or `_regex_target_<f>:<k>` with k a delayed task of
+the LOADED task list; nothing but the four documented exceptions escapes (shape `subtask-placeholder-regex`).
 Encoding (list Z): strings are interned to ids (task names first, in task_list order);
   init error [1; kind; a; b; c]   (kind 0 duplicate name, 1/2/3 dangling task_dep/setup/calc_dep, 4 common target)
   not found  [2; id]              ok [0; selected..; -1; {task; task_dep..; -1}..; -2; {file; producer}..]
@@ -29,7 +34,9 @@ exit code (3 and NOTHING processed/executed for an unknown name), set of process
 executed == processed minus action-less tasks, start order of the selected tasks.  The command line is read by
 split_selection (documented behaviour): every element after a glob is selected or rejected; the tokens after an
 explicitly named pos_arg task are its values (checked against what its action received); a task's own options
-are consumed.
+are consumed.  Directed runs include `d:1 <file>` where <file> is resolved by target_regex / --auto-delayed-regex to a task
+of the creator d (known target) or to nothing (unknown target: exit 3 once the creator ran, no traceback); a started task
+whose name has two colons without being on the command line, or a traceback, is reported as `subtask-placeholder-regex`.
 """
 import fnmatch, io, os, re, sys
 import common
@@ -202,6 +209,61 @@ def gen_a(rng):
                 single=rng.random() < 0.4, auto=rng.random() < 0.3, defect=defect)
 
 
+def scripted_a():
+    """by-name sub-task of a delayed creator + an element resolved through the target regexes (repair 01f48fb)"""
+    def t(name, loader=None, **kw):
+        d = dict(name=name, task_dep=[], post_dep=[], setup=[], calc_dep=[], file_dep=[], targets=[], has_subtask=False,
+                 subtask_of=None, loader=loader, pos_arg=None, params=[])
+        d.update(kw)
+        return d
+    ld = lambda executed=None, regex=None: dict(executed=executed, regex=regex)
+    one = lambda rx, ex=None: [t('a', targets=['f0']), t('c', loader=ld(ex, rx)), t('b', file_dep=['f0'])]
+    two = lambda: [t('c', loader=ld()), t('a', targets=['f0']), t('e', loader=ld('a', 'q.*'))]
+    rows = [
+        (one(None), ['c:1', 'f1'], True),                    # --auto-delayed-regex, unknown file after the sub-task
+        (one('.*\\.o'), ['c:1', 'x.o'], False),              # target_regex
+        (one('.*\\.o'), ['c:1', 'x.o'], True),
+        (one(None), ['f1', 'c:1', 'f2'], True),              # regex element before and after
+        (one(None), ['c:1', 'c:2', 'f0', 'f1', 'a'], True),  # two placeholders, a static target in between
+        (one('.*\\.o', 'a'), ['c:1:2', 'out/a.o'], False),   # a sub-task name with two colons of its own; creator with executed=
+        (one(None), ['c:', 'f1'], True),
+        (one('.*\\.o'), ['c:1', 'zz'], False),               # regex does not match: not found
+        (one(None), ['c:1', 'zz'], False),                   # no regex, no --auto-delayed-regex: not found
+        (two(), ['c:1', 'e:x', 'q1', 'zz'], True),           # q1: c (auto) and e (regex); zz: c only
+        (two(), ['e:x', 'q1'], False),
+        (two(), ['q1', 'e:x', 'c:1', 'q.o'], True),
+    ]
+    out = []
+    for tasks, sel, auto in rows:
+        out.append(dict(tasks=tasks, sel=sel, sel_none=False, default=None, single=False, auto=auto, defect='none', scripted=True))
+    # through DOIT_CONFIG default_tasks and with --single
+    out.append(dict(tasks=one(None), sel=[], sel_none=False, default=['c:1', 'f1'], single=True, auto=True, defect='none', scripted=True))
+    return out
+
+
+def oracle_a(case, obs1, info):
+    """what process() may add to TaskControl.tasks, from the input alone (no model): sub-task placeholders named on the
+    command line and `_regex_target_<f>:<k>` for k a delayed task of the loaded list.  -> (what, shape) or None"""
+    orig = {t['name']: t for t in case['tasks']}
+    eff = [] if case['sel_none'] else list(case['sel'])
+    if obs1 == [98]:
+        by_name_sub = any(f not in orig and f.split(':', 1)[0] in orig and orig[f.split(':', 1)[0]]['loader'] is not None for f in eff)
+        return ('TaskControl(..).process(%r) raised %s: not one of InvalidCommand / CmdParseError / InvalidTask / InvalidDodoFile'
+                % (eff, info.get('exc')), 'subtask-placeholder-regex-exception' if by_name_sub else 'selection-exception')
+    for n in info.get('created', []):
+        if n in eff and n.split(':', 1)[0] in orig and orig[n.split(':', 1)[0]]['loader'] is not None:
+            continue
+        ok = False
+        for f in eff:
+            pre = '_regex_target_%s:' % f
+            if n.startswith(pre) and n[len(pre):] in orig and orig[n[len(pre):]]['loader'] is not None:
+                ok = True
+        if not ok:
+            return ('process(%r) created the task %r: neither a sub-task name of the command line nor a regex placeholder '
+                    'of a delayed task of the loaded task list' % (eff, n), 'subtask-placeholder-regex:process')
+    return None
+
+
 def build_tasks(case):
     from doit.task import Task, DelayedLoader
     out = []
@@ -314,18 +376,22 @@ def enc_exception(e, I):
     return [97]
 
 
-def run_a1(case, I):
+def run_a1(case, I, info=None):
     from doit.control import TaskControl
     from doit.exceptions import InvalidDodoFile, InvalidTask, InvalidCommand
     from doit.cmdparse import CmdParseError
     sel = None if case['sel_none'] else list(case['sel'])
+    info = {} if info is None else info
     try:
         tc = TaskControl(build_tasks(case), auto_delayed_regex=case['auto'])
+        before = list(tc.tasks)
         tc.process(sel)
+        info['created'] = [n for n in tc.tasks if n not in before]
         return enc_control(tc.tasks, tc.targets, tc.selected_tasks, I)
     except (InvalidDodoFile, InvalidTask, InvalidCommand, CmdParseError) as e:
         return enc_exception(e, I)
     except BaseException as e:   # noqa
+        info['exc'] = '%s: %s' % (type(e).__name__, e)
         return [98]
 
 
@@ -383,8 +449,13 @@ def run_a2(ctx, case, I, idx):
 def part_a(ctx, out):
     rng = ctx.rng
     cases = []
-    for ci in range(ctx.n(260, 3000)):
-        case = gen_a(rng)
+
+    def inputs():
+        for i, c in enumerate(scripted_a()):
+            yield 900000 + i, c
+        for ci in range(ctx.n(260, 3000)):
+            yield ci, gen_a(rng)
+    for ci, case in inputs():
         I = Intern()
         try:
             task_list = build_tasks(case)
@@ -395,8 +466,18 @@ def part_a(ctx, out):
         defs = model_defs(case, task_list, I, sfx)
         orac = 'hs%s mt%s bn%s rm%s rn%s ir%s io%s' % ((sfx,) * 7)
         b = lambda x: 'true' if x else 'false'
-        obs1 = run_a1(case, I)
+        info = {}
+        obs1 = run_a1(case, I, info)
         obs2 = run_a2(ctx, case, I, ci)
+        bad = oracle_a(case, obs1, info)
+        if bad:
+            out.violations.append(dict(what=bad[0], shape=bad[1], case=dict(part='A', tasks=case['tasks'], sel=case['sel'], sel_none=case['sel_none'],
+                                                                                auto=case['auto'], observed=dict(created=info.get('created'), exc=info.get('exc')))))
+        if case.get('scripted'):
+            out.count('A:scripted-subtask-placeholder+regex')
+        elif len(info.get('created', [])) >= 2 and any(n.startswith('_regex_target') for n in info['created']) \
+                and any(not n.startswith('_regex_target') for n in info['created']):
+            out.count('A:random-subtask-placeholder+regex')
         selz = 'None' if case['sel_none'] else '(Some %s)' % nl(I(s) for s in case['sel'])
         m1 = 'enc_result (select_core %s %s false %s tb%s)' % (orac, b(case['auto']), selz, sfx)
         dflt = 'None' if case['default'] is None else '(Some %s)' % nl(I(s) for s in case['default'])
@@ -624,9 +705,22 @@ def render_b(spec):
     return '\n'.join(L)
 
 
-def oracle_b(spec, sel, single):
+def regex_candidate(spec, f, auto):
+    """f is no task and no target of the static definitions, no `d:..` name, and the creator d is asked for it:
+    its target_regex matches, or it has none and --auto-delayed-regex is given"""
+    defs = spec['defs']
+    if 'd' not in defs or defs['d']['kind'] != 'delayed' or '*' in f or f in defs or f.split(':', 1)[0] in defs:
+        return False
+    if any(f in t['targets'] for t in defs.values()):
+        return False
+    rx = defs['d']['regex']
+    return bool(re.match(rx, f)) if rx else bool(auto)
+
+
+def oracle_b(spec, sel, single, auto=False):
     """expected (rc, processed set, resolved selection) from the definitions alone.
-    rc 3 = a name that is no task, no target, no sub-task/target a delayed creator provides."""
+    rc 3 = a name that is no task, no target, no sub-task/target a delayed creator provides (late=True: only the
+    creator can tell, the name is rejected once the creator ran; what was selected before it may have run)."""
     order, defs, dsubs = spec['order'], spec['defs'], spec['dsubs']
     producers = {f: nm for nm, t in list(defs.items()) for f in t['targets']}
     dprod = {f: nm for nm, t in dsubs.items() for f in t['targets']}
@@ -675,8 +769,12 @@ def oracle_b(spec, sel, single):
                 resolved.append(producers[f])
             elif f in dsubs:
                 resolved.append(f)
-            elif f in dprod and defs['d']['regex'] and re.match(defs['d']['regex'], f):
+            elif f in dprod and regex_candidate(spec, f, auto):
                 resolved.append(dprod[f])
+            elif regex_candidate(spec, f, auto):
+                others = [x for x in sp['elems'] if x != f]
+                before = oracle_b(spec, others, single, auto) if others else dict(rc=0, processed=set())
+                return dict(rc=3, unknown=f, delayed=False, late=True, may_run=before['processed'] if before['rc'] == 0 else None)
             else:
                 return dict(rc=3, unknown=f, delayed=(f.split(':', 1)[0] in defs and defs[f.split(':', 1)[0]]['kind'] == 'delayed'))
     acc = set()
@@ -752,7 +850,8 @@ def run_b(ctx, spec, argv, idx):
             rc = DoitMain(ModuleTaskLoader(ns), config_filenames=()).run(argv)
         except BaseException as e:   # noqa
             rc = 98
-    return dict(rc=rc, log=list(RecReporter.log), executed=executed, created=created, posval=posval, stderr=q.err.getvalue()[-400:], src=src)
+    return dict(rc=rc, log=list(RecReporter.log), executed=executed, created=created, posval=posval, stderr=q.err.getvalue()[-400:], src=src,
+                traceback=('Traceback' in q.err.getvalue() or rc == 98))
 
 
 def T(kind='plain', **kw):
@@ -781,7 +880,21 @@ def directed_b(d):
                         'h': T('group', subs=['h:y']), 'h:y': T('sub', task_dep=['a'])})
     lint = lambda: spec([['plain', 'lint_files', []], ['plain', 'lint_docs', []], ['plain', 'build', []], ['plain', 'deploy', []]],
                         {'lint_files': T(pos_arg=True), 'lint_docs': T(), 'build': T(params=['flag', 'val']), 'deploy': T(task_dep=['build'])})
+    g1, g2, g9 = (os.path.join(d, 'gen_%s.o' % x) for x in '129')
+    rx = re.escape(d) + r'/gen_.*\.o'
+    dlr = lambda regex: spec([['plain', 'a', []], ['plain', 'b', []], ['delayed', 'd', ['1', '2']]],
+                             {'a': T(), 'b': T(), 'd': T('delayed', executed=None, regex=regex, subs=['d:1', 'd:2'])},
+                             {'d:1': T('dsub', targets=[g1]), 'd:2': T('dsub', task_dep=['b'], targets=[g2])})
     return [
+        # (label, spec, selection, single, --auto-delayed-regex)
+        ('subtask+regex-target', dlr(rx), ['d:1', g2], False, False),
+        ('subtask+regex-target-auto', dlr(None), ['d:1', g2], False, True),
+        ('subtask+own-target-auto', dlr(None), ['d:1', g1], False, True),
+        ('regex-target+subtask', dlr(rx), [g2, 'd:1', 'a'], False, False),
+        ('subtask+unknown-regex-target', dlr(rx), ['d:1', g9], False, False),
+        ('subtask+unknown-target-auto', dlr(None), ['a', 'd:1', os.path.join(d, 'other.txt')], False, True),
+        ('regex-target-alone-auto', dlr(None), [g2], False, True),
+        ('unknown-target-alone-auto', dlr(None), [os.path.join(d, 'other.txt')], False, True),
         ('glob-then-names', lint(), ['lint_*', 'deploy'], False),
         ('glob-then-unknown', lint(), ['lint_*', 'deploy', 'nosuch'], False),
         ('glob-then-option-token', lint(), ['b*', '-f', 'deploy'], False),
@@ -802,14 +915,15 @@ def directed_b(d):
     ]
 
 
-def check_b(ctx, out, spec, sel, single, ci, label=None):
+def check_b(ctx, out, spec, sel, single, ci, label=None, auto=False):
     d = spec['dir']
     order, defs, dsubs = spec['order'], spec['defs'], spec['dsubs']
-    argv = ['run'] + (['--single'] if single else []) + sel
+    argv = ['run'] + (['--single'] if single else []) + (['--auto-delayed-regex'] if auto else []) + sel
     eff = sel if sel else spec['default']
-    exp = oracle_b(spec, eff, single)
+    exp = oracle_b(spec, eff, single, auto)
     res = run_b(ctx, spec, argv, ci)
-    short = lambda s: s.replace(d, '<dir>')
+    esc = repr(re.escape(d))[1:-1]      # the directory as it appears inside a rendered target_regex
+    short = lambda s: s.replace(esc, '<dir>').replace(d, '<dir>')
     case = dict(dodo=short(res['src']), argv=[short(a) for a in argv], default_tasks=spec['default'])
     status = [nm for ev, nm in res['log'] if ev == 'status']
     processed = set(nm for nm in status if not nm.startswith('_regex_target'))
@@ -825,11 +939,29 @@ def check_b(ctx, out, spec, sel, single, ci, label=None):
         shape = shape if force else (ishape or shape)
         out.violations.append(dict(what=what, shape=shape, case=dict(case, observed=dict(rc=res['rc'], started=status, executed=res['executed'],
                                                                                           stderr=short(res['stderr'])))))
-    if 'Traceback' in res['stderr'] or res['rc'] == 98:
+    # input shape of the defect repaired by 01f48fb: a sub-task of the delayed creator by name + an element the creator's
+    # target_regex / --auto-delayed-regex resolves.  The placeholder of the former is no task-creator: no task is ever
+    # named <sub-task name>:<x>, and nothing but InvalidCommand (exit 3, no traceback) may come of an unknown target
+    if 'd' in defs and defs['d']['kind'] == 'delayed' and any(f not in defs and f.split(':', 1)[0] == 'd' for f in (eff or [])) \
+            and any(regex_candidate(spec, f, auto) for f in (eff or [])):
+        out.count('B:subtask-placeholder+regex' + (':auto' if auto else ':target_regex') + (':unknown-target' if exp.get('late') else ''))
+        odd = sorted(set(nm for nm in status + res['executed'] if nm.count(':') >= 2 and nm not in eff))
+        if odd:
+            return viol('`doit %s`: tasks named %s were started: the placeholder of the sub-task selected by name was taken for a '
+                        'task-creator by the target regex matching' % (' '.join(short(a) for a in argv), odd), 'subtask-placeholder-regex', force=True)
+        if res['traceback']:
+            return viol('`doit %s`: an exception other than InvalidCommand escaped (traceback) after a sub-task placeholder was '
+                        'matched by the target regexes' % ' '.join(short(a) for a in argv), 'subtask-placeholder-regex-traceback', force=True)
+    if res['traceback']:
         return viol('doit run crashed with a traceback during selection/run', 'run-crash')
     if exp['rc'] == 3:
         out.nontrivial.add(('B3', ci))
-        if exp['delayed']:
+        if exp.get('late'):
+            if res['rc'] != 3 or (exp['may_run'] is not None and not (processed <= exp['may_run'])):
+                viol('target %r that the delayed creator is asked for but never creates: exit code %s (expected 3), started %s, '
+                     'selected before it: %s' % (short(exp['unknown']), res['rc'], sorted(processed), sorted(exp['may_run'] or [])),
+                     'unknown-delayed-target-not-rejected')
+        elif exp['delayed']:
             # a name only the creator could have provided: known after the creator ran, never a task of its own
             if res['rc'] != 3 or exp['unknown'] in processed:
                 viol('`doit run %s`: the delayed creator never creates this sub-task, yet the name is not rejected: exit code %s, '
@@ -912,8 +1044,8 @@ def random_selection(rng, spec):
 def part_b(ctx, out):
     rng = ctx.rng
     d = ctx.subdir('b')
-    for i, (label, spec, sel, single) in enumerate(directed_b(d)):
-        check_b(ctx, out, spec, sel, single, 1000000 + i, label)
+    for i, (label, spec, sel, single, *auto) in enumerate(directed_b(d)):
+        check_b(ctx, out, spec, sel, single, 1000000 + i, label, auto=bool(auto and auto[0]))
     for ci in range(ctx.n(140, 1500)):
         spec = gen_b(rng, d)
         sel = random_selection(rng, spec)
@@ -948,6 +1080,14 @@ def run(ctx):
 def replay(ctx, payload):
     """re-run the dodo module and command line of a recorded Part B violation on the code under test"""
     case = payload.get('case', {})
+    if case.get('part') == 'A' and 'tasks' in case:
+        info = {}
+        obs = run_a1(dict(case, sel_none=case.get('sel_none', False)), Intern(), info)
+        print('tasks    :', [(t['name'], t['loader']) for t in case['tasks']])
+        print('process  :', None if case.get('sel_none') else case['sel'], ' auto_delayed_regex =', case['auto'])
+        print('recorded :', payload.get('what'), case.get('observed'))
+        print('now      : outcome kind %s, tasks created by process(): %s %s' % (obs[:1], info.get('created'), info.get('exc', '')))
+        return 0
     if 'dodo' not in case:
         print(payload)
         return 0
